@@ -598,6 +598,7 @@ fn reproduce(traces: &[Vec<Vec<u8>>]) -> Option<String> {
     }
 }
 
+static QUICK_LISTEN_ALL: std::sync::atomic::AtomicBool = std::sync::atomic::AtomicBool::new(true);
 fn run_family(fi: usize, fam: &Family, pools: bool) -> Report {
     let chunk = 4096usize;
     let chunks = fam.len.div_ceil(chunk);
@@ -606,6 +607,8 @@ fn run_family(fi: usize, fam: &Family, pools: bool) -> Report {
         let pu = pure();
         for c in rg {
             let (lo, hi) = (c * chunk, ((c + 1) * chunk).min(fam.len));
+            // quick tier: families of more than 64 slices are listened to (log arguments evaluated) on every third slice
+            crate::logsink::listen(QUICK_LISTEN_ALL.load(std::sync::atomic::Ordering::Relaxed) || chunks <= 64 || c % 3 == 0);
             let mut s = Session::new();
             let mut slow: u128 = 0;
             let mut all: Vec<Vec<u8>> = vec![];
@@ -671,6 +674,7 @@ fn run_family(fi: usize, fam: &Family, pools: bool) -> Report {
                 r.exec(calls + 4 * 17);
             }
             slot_clear();
+            crate::logsink::listen(true);
             if slow > SLOW_CALL_MS {
                 r.dev("C01/slow-call", "slow", || json!({"family": fam.name, "slice": [lo, hi], "max_call_ms": slow as u64}));
             }
@@ -1133,6 +1137,7 @@ fn run_stream_family(fi: usize, fam: &SFamily) -> Report {
         let mut r = Report::new();
         for c in rg {
             let (lo, hi) = (c * chunk, ((c + 1) * chunk).min(fam.len));
+            crate::logsink::listen(QUICK_LISTEN_ALL.load(std::sync::atomic::Ordering::Relaxed) || chunks <= 32 || c % 3 == 0);
             let mut s = StreamSession::new();
             let mut start = lo;
             for i in lo..hi {
@@ -1175,6 +1180,7 @@ fn run_stream_family(fi: usize, fam: &SFamily) -> Report {
                 }
             }
             slot_clear();
+            crate::logsink::listen(true);
             r.outcome(&(fi, c));
         }
         r
@@ -1454,6 +1460,9 @@ fn run_capture_files(thorough: bool) -> Report {
 
 // ------------------------------------------------------------------------------------------------ entry points
 pub fn run(thorough: bool) -> Outcome {
+    QUICK_LISTEN_ALL.store(thorough, std::sync::atomic::Ordering::Relaxed);
+    // the pools' worker threads log only in the thorough tier (the same calls are listened to on the sequential path)
+    crate::logsink::listen_default(thorough);
     huginn_net_tcp::uptime::verif_clock::set_global(T0);
     let fams = families(thorough);
     let sfams = stream_families(thorough);
@@ -1509,6 +1518,7 @@ pub fn run(thorough: bool) -> Outcome {
     sizes.push(json!({"family": "database-text", "inputs": r.evaluations, "wall_s": t.elapsed().as_secs_f64()}));
     total = total.merge(r);
     huginn_net_tcp::uptime::verif_clock::clear_global();
+    crate::logsink::listen_default(true);
     Outcome {
         report: total,
         rule: "every input of every family (frames: TCP option space, option pairs, IP header grid, link-layer grid, every truncation / bit flip / header-byte and payload-byte rewrite of every frame of 17 connections and of the 4 repository captures in the context of its connection; streams: all short byte strings, one multi-byte character at every byte offset 0..300 (and around 1 Ki / 4 Ki / 8 Ki) of well-formed and malformed start lines, header names and values, TLS record header grid, every record length, HTTP/2 frame header grid, HPACK blocks, mutations of valid records / frame sequences / heads; capture files: the 4 repository captures cut at every length near every record boundary (thorough: every length), every header byte rewritten, record length fields set to boundary values, through analyze_pcap of the four analyzers followed by the intact capture on the same analyzer (must return, and then analyse the intact capture like a fresh analyzer); clock: timestamped segments of one endpoint with the wall clock stepping backwards / jumping between them; database: every line with deletions, insertions, replacements, numeric overflows, truncations) is fed to the sequential TCP, HTTP, TLS and unified analyzers, the pre-parse filters and dispatch hashes (stream inputs: ClientHello reader, HTTP/2 extractor, one-shot Akamai extractor, request and response parsers; text: database loader); no panic (overflow checks on), no call above 2 s, watchdog for non-termination; after EVERY input a 17-frame probe on the same long-lived instance equals the fresh-instance probe; every slice also through a real 1-worker pool of each kind followed by the probe; distinct = slices x timing bands / loader outcomes".into(),
